@@ -78,6 +78,14 @@ class C19(Prop):
             for k in range(0, n + 2):
                 for mode in ("exhaust", "close", "drop"):
                     cases.append({"reader": "xlsx_sheets", "n": n, "k": k, "mode": mode, "fault": None})
+        # load_files over a folder of m files with n tables each: one reader at a time, whatever the consumption
+        for m in (2, 3):
+            for n in (1, 2):
+                for k in range(0, m * n + 2):
+                    for mode in ("exhaust", "close", "drop"):
+                        cases.append({"reader": "load_multi", "m": m, "n": n, "k": k, "mode": mode, "fault": None})
+                for f in range(n):
+                    cases.append({"reader": "load_multi", "m": m, "n": n, "k": m * n + 1, "mode": "exhaust", "fault": f})
         for rd in readers:
             for n in (1, 2, 3, 5) if tier == "quick" else (1, 2, 3, 4, 5, 7):
                 for k in range(0, n + 1):
@@ -112,6 +120,14 @@ class C19(Prop):
             wb.save(path)
             wb.close()
             return path
+        if rd == "load_multi":
+            # every file holds the same blocks (the order in which the folder is listed does not matter)
+            sub = os.path.join(d, "many")
+            os.mkdir(sub)
+            for j in range(case["m"]):
+                with open(os.path.join(sub, f"in_{j}.csv"), "w") as f:
+                    f.write("".join(table_csv(100 * j + i, bad=(fault == i)) for i in range(n)))
+            return sub
         if rd.startswith("csv") or rd in ("load_files", "load_root_only"):
             path = os.path.join(d, "data.csv")
             with open(path, "w") as f:
@@ -167,6 +183,8 @@ class C19(Prop):
                     gen = read_excel(stream)
                 elif rd == "load_xlsx_badinclude":
                     gen = load_files([path])
+                elif rd == "load_multi":
+                    gen = load_files([path], csv_sep=";")        # the root item is the folder
                 elif rd == "load_root_only":
                     gen = load_files(root_folder=d, csv_sep=";")      # roots omitted: the root folder is the only root item
                 else:
@@ -293,7 +311,7 @@ class C19(Prop):
             if obs.get("caller_stream_closed"):
                 fails.append("caller-stream: the writer closed the caller's stream")
             return fails
-        owns = case["reader"] in ("csv_path", "xlsx_path", "xlsx_sheets", "load_files", "load_xlsx_badinclude", "load_root_only")
+        owns = case["reader"] in ("csv_path", "xlsx_path", "xlsx_sheets", "load_files", "load_xlsx_badinclude", "load_root_only", "load_multi")
         if obs["before_first_next"] != 0:
             fails.append("early-open: a file is open before the first block is requested")
         for kind, n, how in obs["events"]:
@@ -318,13 +336,15 @@ class C19(Prop):
     def to_coq(self, case, obs):
         if "writer" in case or "harness_exc" in obs:
             return None
-        owns = case["reader"] in ("csv_path", "xlsx_path", "xlsx_sheets", "load_files", "load_xlsx_badinclude", "load_root_only")
+        owns = case["reader"] in ("csv_path", "xlsx_path", "xlsx_sheets", "load_files", "load_xlsx_badinclude", "load_root_only", "load_multi")
         evs = []
         for kind, n, how in obs["events"]:
             evs.append(g_pair({"next": "GNext", "close": "GClose", "drop": "GDrop"}[kind], g_nat(n)))
         r = (f"{{| r_blocks := {g_nat(case['n'])}; r_fault := {g_opt(None if case['fault'] is None else g_nat(case['fault']))}; "
              f"r_owns := {g_bool(owns)} |}}")
-        return g_pair(r, g_list(evs))
+        if case["reader"] == "load_multi":
+            return f"(KMany {g_list([r] * case['m'])} {g_list(evs)})"
+        return f"(KOne {r} {g_list(evs)})"
 
     def nontrivial(self, case, obs):
         return "writer" in case or any(h == "yield" for _, _, h in obs.get("events", []))
